@@ -456,17 +456,22 @@ fn debug_session(text: &str, markers: &[(u32, u32)], script: &Json) -> DebugOut 
         .spawn(move || {
             kit::ctx_reset();
             let mut result = String::new();
-            Module::with_temp_heap(|module| {
-                let mut eval = Evaluator::new(&module);
-                hook.add_dap_hooks(&mut eval);
-                match kit::parse(FILE, &text_owned) {
-                    Err(e) => result = format!("parse-error {e}"),
-                    Ok(ast) => match eval.eval_module(ast, kit::globals()) {
-                        Ok(v) => result = format!("ok {}", kit::encode(v)),
-                        Err(e) => result = format!("error[{}] {}", kit::error_kind(&e), kit::error_text(&e)),
-                    },
-                }
-            });
+            let r = std::panic::catch_unwind(std::panic::AssertUnwindSafe(|| {
+                Module::with_temp_heap(|module| {
+                    let mut eval = Evaluator::new(&module);
+                    hook.add_dap_hooks(&mut eval);
+                    match kit::parse(FILE, &text_owned) {
+                        Err(e) => result = format!("parse-error {e}"),
+                        Ok(ast) => match eval.eval_module(ast, kit::globals()) {
+                            Ok(v) => result = format!("ok {}", kit::encode(v)),
+                            Err(e) => result = format!("error[{}] {}", kit::error_kind(&e), kit::error_text(&e)),
+                        },
+                    }
+                });
+            }));
+            if r.is_err() {
+                result = format!("PANIC in the evaluation thread: {}", take_last_panic().unwrap_or_default());
+            }
             let _ = tx2.send(Event::Done(kit::take_transcript(), result));
         })
         .expect("spawn eval thread");
@@ -500,6 +505,27 @@ fn debug_session(text: &str, markers: &[(u32, u32)], script: &Json) -> DebugOut 
                     }
                 };
                 out.stops.push(line);
+                // At every stop: the stack trace, the top frame against it, the variables of every frame.
+                match ad.stack_trace(StackTraceArguments { format: None, levels: None, start_frame: None, thread_id: 0 }) {
+                    Err(e) => out.problems.push(("debugger-request-failed".to_owned(), format!("stack_trace at stop {n}: {e}"))),
+                    Ok(st) => {
+                        if st.stack_frames.len() >= 2 {
+                            if let Ok(Some(tf)) = ad.top_frame() {
+                                let f0 = &st.stack_frames[0];
+                                if tf.name != f0.name || tf.line != f0.line {
+                                    out.problems.push(("debugger-top-frame-wrong".to_owned(), format!("stop {n}: top_frame is `{}` line {}, the stack trace starts with `{}` line {}", tf.name, tf.line, f0.name, f0.line)));
+                                }
+                            }
+                        }
+                        for fid in 0..st.stack_frames.len() {
+                            if let Err(e) = ad.variables(fid) {
+                                out.problems.push(("debugger-request-failed".to_owned(), format!("variables({fid}) at stop {n}: {e}")));
+                            }
+                            let _ = ad.scopes(fid);
+                            *out.stats.entry("frames_inspected".to_owned()).or_insert(0) += 1;
+                        }
+                    }
+                }
                 // Requests drawn by the client script.
                 let nreq = rng.below(4);
                 for _ in 0..nreq {
@@ -797,6 +823,14 @@ impl World for C18 {
             log.push(format!("{what}: stops {:?}", d.stops));
             if d.hang {
                 o.violate("hang", "hang", format!("{what}: {:?}", d.problems));
+                break;
+            }
+            if d.result.starts_with("PANIC") {
+                o.violate("panic", "debugger-panic", format!("{what}: {}", kit::clip(&d.result)));
+                break;
+            }
+            if let Some((c, m)) = d.problems.iter().find(|(c, _)| c == "debugger-top-frame-wrong") {
+                o.violate(c, "top-frame", format!("{what}: {m}"));
                 break;
             }
             if let Some((c, m)) = d.problems.first() {
